@@ -765,6 +765,19 @@ def rule_strterm(roles):
                             tv = (1 if listed == [0] else 0 if listed == [1] else None) if v == 'otherwise' else (1 if v != 0 else 0)
                             if tv == 1:
                                 W.append((sb, tb))
+                # ... or the Some edge of a search for the closing quote (find / position / memchr-like)
+                for sb in sorted(b.live_blocks):
+                    t = b.blocks[sb]['term']
+                    if t['k'] != 'switch':
+                        continue
+                    l = op_local(t['discr'])
+                    defs = du.defs.get(l, []) if l is not None else []
+                    if len(defs) == 1 and defs[0][2] == 'assign' and defs[0][3]['k'] == 'discr':
+                        so = single_origin(trace_local(b, defs[0][3]['pl']['l'], ()))
+                        if so is not None and so.kind == 'callres' and re.search(r'(::find|::position|::rfind|::find_map|::char_indices|::split_once|memchr)$', so.data.callee or ''):
+                            for v, tb in switch_edges(b, sb):
+                                if v == 1:
+                                    W.append((sb, tb))
                 if W and passes_edge(b, bb, W):
                     obs.append(ok('STRTERM', key, 'the String token is built only after a consumed character compared equal to the opening quote (directly or through a constant flag set behind that edge)', b.where(bb)))
                 else:
